@@ -54,11 +54,12 @@ CLAIMED = {
          "Theorems C09_predicate_is_distance, C09_points_in_tolerance, C09_reduction, C09_subsequence, C09_unchanged: the fast predicate accepts a point iff some point of the chord is strictly "
          "closer than the tolerance; supersample only deletes, keeps first and last vertex, and every deleted vertex passes that test against the segment joining its surviving neighbours.",
          NOTE_COMMON + "max_dist_from_n_points (float sqrt) is compared outside a 1e-9 band around the tolerance.", "DESIGN.md section 5, C09"),
- "C10": ("Coq proof: de Casteljau halves (field), refinement relation and dyadic tiling by induction; termination NOT proved (partial); float-exact correspondence",
-         "Theorems C10_halves, C10_refines_and_flat, C10_dyadic_tiling, C10_nodes_survive, C10_flat_is_distance, C10_terminates_partial: a returning run replaces each original piece by its halves "
-         "recursively (pieces = the original restricted to consecutive dyadic intervals tiling [0,1]), keeps the outer handles and all original nodes, and leaves only flat pieces. "
-         "Termination is not proved: only fuel-independence of returning runs.",
-         NOTE_COMMON + "beziersplitatt is dependency code (modelled). On the quarter-integer grid the float run is exact and compared node for node.", "DESIGN.md section 5, C10"),
+ "C10": ("Coq proof: de Casteljau halves (field), refinement relation and dyadic tiling by induction, termination for every node list and flat > 0 with an explicit iteration bound; float-exact correspondence",
+         "Theorems C10_halves, C10_refines_and_flat, C10_dyadic_tiling, C10_nodes_survive, C10_flat_is_distance, C10_terminates, C10_piece_bound: the call returns for every node list and every flat > 0 "
+         "(a half's control polygon is at most half as long in every coordinate, a short control polygon is flat, so a piece is finished after at most 2^(k+1)-1 loop iterations); it replaces each original "
+         "piece by its halves recursively (pieces = the original restricted to consecutive dyadic intervals tiling [0,1]), keeps the outer handles and all original nodes, and leaves only flat pieces.",
+         NOTE_COMMON + "beziersplitatt is dependency code (modelled). On the quarter-integer grid the float run is exact and compared node for node. Termination is proved in exact arithmetic; in floats "
+         "a piece can stop shrinking at the resolution of the format (not modelled).", "DESIGN.md section 5, C10"),
  "C11": ("Coq proof (field/lra over Q) of the SVG equations for the numeric core + kernel-evaluated parse sweep + bit-exact float correspondence",
          "Theorem C11_core: for all positive sizes and every alignment x meet/slice the exact-layer result satisfies the SVG 1.1 preserveAspectRatio equations; C11_valid ties the "
          "string layer to the core; C11_parse_sweep decides 8100 case/separator/defer spellings in the kernel; identity and no-raise theorems. The same model with round-to-nearest-even "
